@@ -11,6 +11,7 @@ import (
 	"verifharness/gold"
 	"verifharness/ka"
 	"verifharness/kms"
+	"verifharness/meas"
 	"verifharness/pl"
 	"verifharness/rp"
 	"verifharness/vk"
@@ -33,6 +34,7 @@ var checks = map[string]func(*vk.Run){
 	"C19": pl.RunC19,
 	"C06": gold.RunC06,
 	"C18": abiref.RunC18,
+	"C04": meas.RunC04,
 }
 
 func main() {
